@@ -22,6 +22,7 @@ def main():
         api.run_miri_programs(0, 2, "setup", dict(out_structs=True, owned_slices=True, callbacks=True, opt_owned=True), 10)
         import wasm32
         wasm32.sysroot()
+        wasm32.e2e_artifacts()
         common.cargo_build_crate(common.instantiate_crate("hirdump"), "stable", bin_name="hirdump")
     except common.Inconclusive as e:
         common.log("setup failed: %s" % e)
